@@ -198,7 +198,7 @@ def weighting_tag(sp):
         return 'pspace[%s;%s]' % (w, ','.join(inner))
     if isinstance(sp, odl.DiscretizedSpace):
         part = sp.partition
-        bdry = bool(np.any(part.nodes_on_bdry)) if hasattr(part, 'nodes_on_bdry') else False
+        bdry = any(any(t) for t in part.nodes_on_bdry_byaxis) if hasattr(part, 'nodes_on_bdry_byaxis') else False
         t = weighting_tag(sp.tspace)
         cv1 = (float(sp.cell_volume) == 1.0)
         return 'discr[%s%s%s]' % (t, ',bdry' if bdry else '', ',cv1' if cv1 else '')
